@@ -905,9 +905,7 @@ class VectorExpression:
 
     def __rsub__(self, other: float | int) -> VectorExpression:
         # other - self
-        return VectorExpression(
-            [BinaryOp(_ensure_expr(other), expr, "-") for expr in self._expressions]
-        )
+        return _vector_reflected_op(self._expressions, other, "-")
 
     def __mul__(self, other: float | int) -> VectorExpression:
         """Scalar multiplication."""
@@ -922,9 +920,7 @@ class VectorExpression:
 
     def __rtruediv__(self, other: float | int) -> VectorExpression:
         """Right scalar division."""
-        return VectorExpression(
-            [BinaryOp(_ensure_expr(other), expr, "/") for expr in self._expressions]
-        )
+        return _vector_reflected_op(self._expressions, other, "/")
 
     def __neg__(self) -> VectorExpression:
         """Negate all elements."""
@@ -1239,9 +1235,7 @@ class VectorVariable:
 
     def __rsub__(self, other: float | int) -> VectorExpression:
         """Right subtraction: scalar - vector."""
-        return VectorExpression(
-            [BinaryOp(_ensure_expr(other), v, "-") for v in self._variables]
-        )
+        return _vector_reflected_op(self._variables, other, "-")
 
     def __mul__(self, other: float | int) -> VectorExpression:
         """Scalar multiplication: x * 2."""
@@ -1257,9 +1251,7 @@ class VectorVariable:
 
     def __rtruediv__(self, other: float | int) -> VectorExpression:
         """Right scalar division: 1 / x."""
-        return VectorExpression(
-            [BinaryOp(_ensure_expr(other), v, "/") for v in self._variables]
-        )
+        return _vector_reflected_op(self._variables, other, "/")
 
     def __neg__(self) -> VectorExpression:
         """Negate all elements: -x."""
@@ -1614,6 +1606,30 @@ def _vector_constraint(
         _make_constraint(left_expr, sense, right_expr)
         for left_expr, right_expr in zip(left_exprs, right_exprs)
     ]
+
+
+def _vector_reflected_op(
+    elements: Sequence[Expression], other: float | int | np.ndarray | list, op: str
+) -> VectorExpression:
+    """Build ``other <op> vector`` for a scalar or a 1-D array on the left."""
+    if isinstance(other, (np.ndarray, list)):
+        arr = np.asarray(other)
+        if arr.ndim != 1:
+            raise WrongDimensionalityError(
+                context=f"vector {op}",
+                expected_ndim=1,
+                got_ndim=arr.ndim,
+            )
+        if len(arr) != len(elements):
+            raise DimensionMismatchError(
+                operation=f"vector {op}",
+                left_shape=len(arr),
+                right_shape=len(elements),
+            )
+        return VectorExpression(
+            [BinaryOp(Constant(val), elem, op) for val, elem in zip(arr, elements)]
+        )
+    return VectorExpression([BinaryOp(_ensure_expr(other), elem, op) for elem in elements])
 
 
 def _vector_binary_op(
